@@ -122,11 +122,31 @@ def corpus_cases(pid):
     return out
 
 
+def preamble_files(mod):
+    """the MV files the generated cases files import (they must be built too, not only the theorem file's closure)"""
+    import re
+    out = []
+    try:
+        pre = mod.coq_preamble()
+    except Exception:
+        return out
+    for m in re.finditer(r"From\s+MV\s+Require\s+(?:Import|Export)\s+([\w.\s]+?)\.\s", pre + "\n"):
+        for name in m.group(1).split():
+            cand = name.replace(".", "/") + ".v"
+            if os.path.exists(os.path.join(proofs.COQ, cand)) and cand not in out:
+                out.append(cand)
+    for m in re.finditer(r"Require\s+(?:Import|Export)\s+((?:MV\.[\w.]+\s*)+)\.\s", pre + "\n"):
+        for name in m.group(1).split():
+            cand = name[3:].replace(".", "/") + ".v"
+            if os.path.exists(os.path.join(proofs.COQ, cand)) and cand not in out:
+                out.append(cand)
+    return out
+
+
 def proof_stage(mod, tier, workdir):
     """build + re-check this property's theorem file.  returns (info dict, problems list)"""
     problems = []
-    ok, log, secs = proofs.ensure_built(clean=(tier == "thorough" and os.environ.get("VERIF_NOCLEAN") != "1") and False,
-                                        targets=[mod.PROPS_FILE])
+    ok, log, secs = proofs.ensure_built(targets=[mod.PROPS_FILE] + preamble_files(mod))
     info = dict(build_ok=ok, build_s=round(secs, 1))
     if not ok:
         problems.append(dict(what="coq build failed", theorem="make (coq/)", log=log[-3000:]))
@@ -345,7 +365,7 @@ def run_replay(mod, path):
     if ff:
         print("failures:", jdump(ff)[:2000])
         print("VIOLATION property=%s replay=%s" % (pid, path)); return 1
-    proofs.ensure_built(targets=[mod.PROPS_FILE])
+    proofs.ensure_built(targets=[mod.PROPS_FILE] + preamble_files(mod))
     nterms, mism, cerrs = correspondence(mod, [case], [(obs, fails)], workdir, name="replay")
     if mism or cerrs:
         print("model/implementation disagreement persists:", mism, cerrs[:1])
